@@ -4,7 +4,7 @@ import vlib
 
 PROP = dict(
     id="C05",
-    corr=["Model/FsmCorr.vo", "Model/C05Corr.vo"],
+    corr=["Model/FsmCorr.vo", "Model/C05Corr.vo", "Model/C05LndWatch.vo"],
     design_ref="DESIGN.md §6 C05",
     technique="Coq: local pay-loop guard lifted to all crash histories (hist_local), invoice-CLTV bound from C01's invoice invariant, route CLTV from the C24 route models, window arithmetic; the FULL statement is refuted in Coq (Findings/F_C05_1.v) and on the real code by directed scenarios; step-level vm_compute correspondence + monitor with the confirmation height chosen by the simulated chain",
     level_text="Machine-checked for all histories/environments/crash points: every Bitcoin claim payment is made at a height P with start <= P <= start+504 (uint32 arithmetic explicit) for an invoice with final CLTV f <= 504, so with the route CLTV of either back-end (CLN f+1, lnd f+4) the HTLC expires by start+1012; the full statement P+delta < conf+1008 holds whenever the opening tx was mined at least 5 blocks after the taker's start height (exact region). Outside that region the full statement is REFUTED (Coq witness + replay on the real code): the taker's code never learns the confirmation height. Known finding, reproduced on every run.",
@@ -68,9 +68,23 @@ def run(ctx):
     ctx.absorb(res, "fsm", signature=classify,
                describe=lambda c: "Bitcoin claim payment whose HTLC can outlive the maker's CSV refund (%s)" % classify(c))
     check_findings(ctx)
+    run_lndwatch(ctx, 60 if ctx.quick else 1500)
+
+
+def run_lndwatch(ctx, n, outdir=None):
+    """lnd back-end: the real lnd.TxWatcher's confirmation decision over fake lnd RPC clients"""
+    d = ctx.harness("lndwatch", outdir=outdir or (ctx.work + "/lndwatch"), args=["-n", n])
+    if d is None:
+        return
+    res = vlib.eval_cases(d)
+    ctx.rules.append("lnd watcher family: the real lnd.TxWatcher (fake confirmation stream and GetInfo) on (confirmation height, node height) pairs: 1..4, 502..505, 1008, 1009 confirmations at four base heights incl. near 2^32, node height below the confirmation height, GetInfo failing, random pairs; compared with the model (uint32 arithmetic); monitor: confirmed only with fewer than 504 confirmations")
+    ctx.absorb(res, "lndwatch", signature=lambda c: "lndwatch:confirmed-with-%s-confirmations" % (c.get("node_height", 0) - c.get("confirmation_height", 0) + 1),
+               mismatch_is_violation=False,
+               describe=lambda c: "the lnd watcher handed an opening transaction confirmed at height %s to the swap at node height %s (the taker goes on to pay): half of the CSV or more has passed" % (c.get("confirmation_height"), c.get("node_height")))
 
 
 def search(ctx):
+    run_lndwatch(ctx, 1500, outdir=ctx.work + "/search_lndwatch")
     d = ctx.harness("fsm", outdir=ctx.work + "/search", args=["-n", 800, "-focus", "C05"] + MON)
     if d is None:
         return
